@@ -31,6 +31,7 @@ use datafusion_expr::physical_planning_context::PhysicalPlanningContext;
 use datafusion_expr::simplify::SimplifyContext;
 use datafusion_expr::{col, BinaryExpr, Expr, Operator};
 use datafusion_optimizer::simplify_expressions::ExprSimplifier;
+use datafusion_physical_expr::expressions::{InListExpr, Literal};
 use datafusion_physical_expr::{create_physical_expr, PhysicalExpr};
 use h_util::{arg, json_str, Rng};
 
@@ -75,9 +76,6 @@ impl Ty {
             Ty::Bool => DataType::Boolean,
             Ty::Str => DataType::Utf8,
         }
-    }
-    fn is_int(self) -> bool {
-        !matches!(self, Ty::Bool | Ty::Str)
     }
     fn scalar(self, v: &V) -> ScalarValue {
         match (self, v) {
@@ -256,6 +254,65 @@ fn has_like(e: &E) -> bool {
         E::Case(ws, els) => ws.iter().any(|(w, t)| has_like(w) || has_like(t)) || els.as_ref().map_or(false, |x| has_like(x)),
         E::SimpleCase(o, ws, els) => has_like(o) || ws.iter().any(|(w, t)| has_like(w) || has_like(t)) || els.as_ref().map_or(false, |x| has_like(x)),
     }
+}
+
+
+fn has_inlist(e: &E) -> bool {
+    match e {
+        E::InList(..) => true,
+        E::Col(_) | E::Lit(..) => false,
+        E::Arith(_, l, r) | E::Cmp(_, l, r) | E::And(l, r) | E::Or(l, r) | E::Distinct(_, l, r) | E::Like(_, _, l, r) => has_inlist(l) || has_inlist(r),
+        E::Not(x) | E::IsNull(_, x) => has_inlist(x),
+        E::Between(_, a, b, c) => has_inlist(a) || has_inlist(b) || has_inlist(c),
+        E::Case(ws, els) => ws.iter().any(|(w, t)| has_inlist(w) || has_inlist(t)) || els.as_ref().map_or(false, |x| has_inlist(x)),
+        E::SimpleCase(o, ws, els) => has_inlist(o) || ws.iter().any(|(w, t)| has_inlist(w) || has_inlist(t)) || els.as_ref().map_or(false, |x| has_inlist(x)),
+    }
+}
+/// the definition of IN: x IN (l1..ln) = x = l1 OR ... OR x = ln (FALSE for n = 0); NOT IN = NOT of it
+fn or_chain(e: &E) -> E {
+    let f = |x: &E| bx(or_chain(x));
+    match e {
+        E::InList(neg, x, l) => {
+            let x = or_chain(x);
+            let mut it = l.iter().map(|y| E::Cmp("=", bx(x.clone()), bx(or_chain(y))));
+            let chain = match it.next() {
+                None => E::Lit(Ty::Bool, V::B(false)),
+                Some(first) => it.fold(first, |acc, c| E::Or(bx(acc), bx(c))),
+            };
+            if *neg {
+                E::Not(bx(chain))
+            } else {
+                chain
+            }
+        }
+        E::Col(_) | E::Lit(..) => e.clone(),
+        E::Arith(op, l, r) => E::Arith(*op, f(l), f(r)),
+        E::Cmp(op, l, r) => E::Cmp(op, f(l), f(r)),
+        E::And(l, r) => E::And(f(l), f(r)),
+        E::Or(l, r) => E::Or(f(l), f(r)),
+        E::Not(x) => E::Not(f(x)),
+        E::IsNull(n, x) => E::IsNull(*n, f(x)),
+        E::Distinct(n, l, r) => E::Distinct(*n, f(l), f(r)),
+        E::Between(n, a, b, c) => E::Between(*n, f(a), f(b), f(c)),
+        E::Case(ws, els) => E::Case(ws.iter().map(|(w, t)| (or_chain(w), or_chain(t))).collect(), els.as_ref().map(|x| f(x))),
+        E::SimpleCase(o, ws, els) => E::SimpleCase(f(o), ws.iter().map(|(w, t)| (or_chain(w), or_chain(t))).collect(), els.as_ref().map(|x| f(x))),
+        E::Like(n, c, l, r) => E::Like(*n, *c, f(l), f(r)),
+    }
+}
+/// an InListExpr that carries a static filter ("IN (SET)") although one of its list elements is not a literal
+fn frozen_inlist(p: &Arc<dyn PhysicalExpr>) -> bool {
+    if let Some(il) = p.downcast_ref::<InListExpr>() {
+        let shown = format!("{il}");
+        let own = shown.find(" IN (SET)").map_or(false, |_| true);
+        // the Display of a nested IN also contains "(SET)"; decide on this node: a static filter exists iff
+        // "<expr> [NOT ]IN (SET) (" follows the needle's own Display
+        let needle = format!("{}", il.expr());
+        let own = own && (shown.starts_with(&format!("{needle} IN (SET)")) || shown.starts_with(&format!("{needle} NOT IN (SET)")));
+        if own && il.list().iter().any(|x| !x.is::<Literal>()) {
+            return true;
+        }
+    }
+    p.children().iter().any(|c| frozen_inlist(c))
 }
 
 // ------------------------------------------------------------------ planning / evaluation
@@ -533,10 +590,29 @@ fn run_case(id: u64, c: &Case_) {
             why = format!("row-by-row evaluation panicked: {e}");
         }
     }
+    // second direct oracle: IN lists against their definition (the OR chain of equalities), planned and
+    // evaluated by the same engine
+    let frozen = frozen_inlist(&p);
+    let mut alt_txt = "null".to_string();
+    if why.is_empty() && has_inlist(&c.e) {
+        let alt_e = or_chain(&c.e);
+        if let Ok(Ok(ap)) = catch_unwind(AssertUnwindSafe(|| plan(&cx, &alt_e))) {
+            let alt = match &c.sel {
+                None => eval(&ap, &b),
+                Some(s) => eval_sel(&ap, &b, s),
+            };
+            if let (Ok(vs), Ok(avs)) = (&vec_res, &alt) {
+                alt_txt = jcol(avs);
+                if let Some(k) = (0..vs.len().min(avs.len())).find(|&k| vs[k] != avs[k]) {
+                    why = format!("IN list differs from its OR-chain definition at row {}: {} vs {}{}", idx[k], jv(&vs[k]), jv(&avs[k]), if frozen { " (non-constant list element frozen into a static filter)" } else { "" });
+                }
+            }
+        }
+    }
     let disp = format!("{p}");
     println!(
-        "{head},\"planned\":true,\"phys\":{},\"obs\":{},\"err\":{},\"row_errs\":{},\"rowwise\":{},\"ok\":{},\"why\":{}}}",
-        json_str(&disp.chars().take(400).collect::<String>()),
+        "{head},\"planned\":true,\"frozen_inlist\":{frozen},\"or_chain\":{alt_txt},\"phys\":{},\"obs\":{},\"err\":{},\"row_errs\":{},\"rowwise\":{},\"ok\":{},\"why\":{}}}",
+        json_str(&disp.chars().take(1500).collect::<String>()),
         vec_res.as_ref().map(|v| jcol(v)).unwrap_or("null".into()),
         vec_res.as_ref().err().map(|e| json_str(e)).unwrap_or("null".into()),
         row_errs,
